@@ -53,6 +53,10 @@ class StubSim(DynamicOrderSimulation):
         # ids are deliberately NOT in lexicographic order (nor of equal length): code that sorts ids, iterates a
         # set of them or compares them as strings then differs visibly from code that keeps the listing order
         self.ids = [agent_id(i) for i in range(self.n)]
+        if script.get("plainIds"):
+            # the ids most simulations use: with eleven and more agents "agent1" is a substring of "agent10", and
+            # "agent10" sorts before "agent2"
+            self.ids = [f"agent{i}" for i in range(self.n)]
         self.idx = {aid: i for i, aid in enumerate(self.ids)}
         agents = {}
         for i, aid in enumerate(self.ids):
